@@ -102,6 +102,7 @@ def run(ctx):
         color = rng.choice(["never", "never", "always"])
         jobs.append((s4, d, srcs, o, wargs, color))
         meta.append((d, srcs, o, a, b, wk, color))
+    run_other_kinds(ctx, s4)
     for (d, srcs, o, a, b, wk, color), (r0, r1) in zip(meta, core.pmap(job, jobs)):
         if r0.timed_out or r1.timed_out:
             ctx.inconc("watchdog")
@@ -187,3 +188,67 @@ def run(ctx):
         if len(ctx.samples) < 4 and sel and o["file"]:
             ctx.sample({"argv": r1.argv[1:], "Printed bytes": pb, "stdout_bytes": len(out), "messages": len(sel),
                         "per_file_bytes": fb, "separators": seplen * len(sel), "supplied_newlines": supplied})
+
+
+# --------------------------------------------------------------------------
+# evtx / journal sources: counts against the independent readers
+
+def other_job(args):
+    s4, files, extra, cwd = args
+    env = core.base_env(tmpdir=cwd)
+    r0 = core.run([s4, "--color", "never", "-t=+00:00"] + extra + files, env, cwd=cwd, timeout=300)
+    r1 = core.run([s4, "--color", "never", "-t=+00:00"] + extra + ["--summary"] + files, env, cwd=cwd, timeout=300)
+    return r0, r1
+
+
+def run_other_kinds(ctx, s4):
+    from checks import c09, c10
+    from vlib import fixtures
+    rng = ctx.rng
+    h = core.build_harness()
+    pool = []
+    for p in fixtures.evtxs():
+        recs, _ = c10.dump(h, p)
+        pool.append(("evtx", p, sorted(t // 1000 for _, t in recs)))
+    for p in fixtures.journals():
+        exp = c09.parse_export(c09.journalctl(p, "export"))
+        pool.append(("journal", p, sorted(int(c09.field(e, b"__REALTIME_TIMESTAMP")) for e in exp)))
+    jobs, meta = [], []
+    for cid in range(ctx.pick(60, 600)):
+        srcs = rng.sample(pool, rng.choice([1, 2, 3]))
+        allts = sorted(t for x in srcs for t in x[2])
+        a = b = None
+        if allts and rng.random() < 0.6:
+            a, b = sorted([rng.choice(allts), rng.choice(allts)])
+        extra = (["-a", c09.bound_str(a, rng)] if a is not None else []) + (["-b", c09.bound_str(b, rng)] if b is not None else [])
+        extra += rng.choice([[], ["-n"], ["-p", "-u"], ["--separator", "<S>"]])
+        if any(x[0] == "journal" for x in srcs):
+            extra += ["--journal-output", rng.choice(["short", "export", "cat", "verbose"])]
+        jobs.append((s4, [x[1] for x in srcs], extra, ctx.work))
+        meta.append((srcs, a, b, extra))
+    for (srcs, a, b, extra), (r0, r1) in zip(meta, core.pmap(other_job, jobs, workers=8)):
+        if r0.timed_out or r1.timed_out:
+            ctx.inconc("watchdog")
+            continue
+        kinds = tuple(sorted({x[0] for x in srcs}))
+        ctx.evaluated(1, (kinds, a is not None, tuple(extra[-2:])))
+        ctx.count("evtx/journal summary runs")
+        info = {"argv": r1.argv, "env": r1.env, "summary_tail": r1.err[-800:]}
+        if r0.out != r1.out:
+            ctx.violation("C19|stdout-changes-with-summary|%s" % "+".join(kinds), "stdout differs between runs with and without --summary", info=info)
+            continue
+        files, prog = parse_summary(r1.err)
+        inwin = lambda t: (a is None or t >= a) and (b is None or t <= b)
+        n_e = sum(1 for x in srcs if x[0] == "evtx" for t in x[2] if inwin(t))
+        n_j = sum(1 for x in srcs if x[0] == "journal" for t in x[2] if inwin(t))
+        if to_int(prog.get("Printed bytes")) != len(r1.out):
+            ctx.violation("C19|printed-bytes-differs-from-stdout|%s" % "+".join(kinds), "summary 'Printed bytes' = %s, stdout has %d bytes" % (prog.get("Printed bytes"), len(r1.out)), info=info)
+        if to_int(prog.get("Printed evtx events")) != n_e:
+            ctx.violation("C19|printed-evtx-count", "summary 'Printed evtx events' = %s, the independent dump has %d records in the window" % (prog.get("Printed evtx events"), n_e), info=info)
+        if to_int(prog.get("Printed journal events")) != n_j:
+            ctx.violation("C19|printed-journal-count", "summary 'Printed journal events' = %s, journalctl has %d entries in the window [%s, %s]" % (
+                prog.get("Printed journal events"), n_j, a, b), info=info)
+        nsep = extra.count("--separator") and r1.out.count(b"<S>")
+        fb = sum(to_int(f["Printed"].get("bytes")) or 0 for f in files)
+        if fb != len(r1.out) - 3 * (nsep or 0):
+            ctx.violation("C19|per-file-bytes-do-not-add-up|%s" % "+".join(kinds), "per-file printed bytes sum to %d, total %d minus %d separator bytes" % (fb, len(r1.out), 3 * (nsep or 0)), info=info)
